@@ -37,7 +37,7 @@ type HistCase struct {
 
 var histOps = []string{"reroot", "rerootfirst", "unroot", "midpoint", "outgroup", "prune", "prunekeep", "collapselen", "collapsesup", "collapsedepth",
 	"removeedges", "collapseclade", "resolve", "rotate", "sort", "removesingle", "clone", "subtree", "nniapply", "nniapplyundo", "insertidentical", "graft", "merge",
-	"rename", "renameauto", "renameregexp", "shuffle", "reinit", "clearlen", "clearsup", "clearcomments", "scale", "round", "addcomment", "editcomment", "resolvenamed"}
+	"rename", "renameauto", "renameregexp", "shuffle", "reinit", "clearlen", "clearsup", "clearcomments", "scale", "round", "addcomment", "editcomment", "resolvenamed", "nnihold", "nniundoheld"}
 
 // structure-changing operations (for the non-triviality rule)
 var structOps = map[string]bool{"reroot": true, "rerootfirst": true, "unroot": true, "midpoint": true, "outgroup": true, "prune": true, "prunekeep": true,
@@ -125,6 +125,9 @@ type histState struct {
 	// what the last local edit was asked to do (C15)
 	added, removed []string
 	groups         [][]string
+	held           tree.Rearrangement // an applied NNI kept by the caller, undone by a later step
+	heldSteps      int
+	freshIndex     bool // the indexes of this tree are known to be current (C15: copy of an indexed tree, not edited yet)
 }
 
 func sortedTipNames(t *tree.Tree) []string {
@@ -179,10 +182,21 @@ func innerNodesOf(t *tree.Tree, minDeg int, withRoot bool) []*tree.Node {
 
 const opSkip = "skip"
 
+// steps after which a rearrangement object obtained earlier still refers to the same nodes and branches in the same
+// places (child order may change, attributes may change)
+var keepsTopology = map[string]bool{"rotate": true, "sort": true, "scale": true, "round": true, "clearlen": true, "clearsup": true, "clearcomments": true,
+	"addcomment": true, "editcomment": true, "reinit": true, "nniundoheld": true, "nnihold": true}
+
 // applyOp interprets one step against the state. desc == opSkip: not applicable in this state.
 func applyOp(st *histState, op HOp) (desc string, err error) {
 	t := st.t
 	st.added, st.removed, st.groups = nil, nil, nil
+	fresh := st.freshIndex
+	st.freshIndex = false
+	// a held NNI stays valid only across steps that keep every node and branch in place
+	if st.held != nil && !keepsTopology[op.Op] {
+		st.held = nil
+	}
 	r := rand.New(rand.NewSource(op.Seed))
 	rand.Seed(op.Seed) // the product's PRNG seam
 	tips := sortedTipNames(t)
@@ -214,6 +228,23 @@ func applyOp(st *histState, op HOp) (desc string, err error) {
 				}
 				if len(cl) < len(tips) {
 					og = cl
+				}
+			}
+		}
+		if op.B%3 == 1 { // everything but one clade
+			if in := innerNodesOf(t, 3, false); len(in) > 0 {
+				inClade := map[string]bool{}
+				for _, x := range t.SubTree(in[op.A%len(in)]).Tips() {
+					inClade[x.Name()] = true
+				}
+				var rest []string
+				for _, n := range tips {
+					if !inClade[n] {
+						rest = append(rest, n)
+					}
+				}
+				if len(rest) > 0 && len(rest) < len(tips) {
+					og = rest
 				}
 			}
 		}
@@ -328,9 +359,30 @@ func applyOp(st *histState, op HOp) (desc string, err error) {
 			return fmt.Sprintf("NNI#%d.Apply;Undo", i), rs[i].Undo()
 		}
 		return fmt.Sprintf("NNI#%d.Apply", i), nil
+	case "nnihold":
+		var rs []tree.Rearrangement
+		(&tree.NNIRearranger{}).Rearrange(t, func(re tree.Rearrangement) bool { rs = append(rs, re); return true })
+		if len(rs) == 0 || st.held != nil {
+			return opSkip, nil
+		}
+		i := op.A % len(rs)
+		if e := rs[i].Apply(); e != nil {
+			return fmt.Sprintf("NNI#%d.Apply (kept)", i), e
+		}
+		st.held = rs[i]
+		return fmt.Sprintf("NNI#%d.Apply (rearrangement kept for a later Undo)", i), nil
+	case "nniundoheld":
+		if st.held == nil {
+			return opSkip, nil
+		}
+		h := st.held
+		st.held = nil
+		return "Undo of the kept NNI", h.Undo()
 	case "insertidentical":
-		if e := t.ReinitIndexes(); e != nil {
-			return "ReinitIndexes", e
+		if !fresh {
+			if e := t.ReinitIndexes(); e != nil {
+				return "ReinitIndexes", e
+			}
 		}
 		old := pickSubset(r, tips, 1, 2)
 		var groups [][]string
@@ -354,8 +406,10 @@ func applyOp(st *histState, op HOp) (desc string, err error) {
 		st.groups = groups
 		return fmt.Sprintf("InsertIdenticalTips(%v)", groups), t.InsertIdenticalTips(groups)
 	case "graft":
-		if e := t.ReinitIndexes(); e != nil {
-			return "ReinitIndexes", e
+		if !fresh { // a tree whose indexes are known to be current is edited as it is
+			if e := t.ReinitIndexes(); e != nil {
+				return "ReinitIndexes", e
+			}
 		}
 		st.serial++
 		g := mustParse(fmt.Sprintf("((G%da:0.5,G%db:0.25):0.125,G%dc:1);", st.serial, st.serial, st.serial))
